@@ -1056,25 +1056,33 @@ def _ancestor_renamed_undrained(path, hist):
 
 
 def _name_reused(path, hist):
-    """Was the name the directory was created under taken by another entry before a drain?"""
+    """Was a name that the directory held (the one it was created under, or one it passed through while being renamed)
+    taken by ANOTHER entry before a drain?"""
     p = path
     ops = list(hist)
     i0 = None
+    own = set()           # indices of the operations that moved this very directory
+    held = []             # (name, index of the operation after which the directory no longer bore it)
     for i in range(len(ops) - 1, -1, -1):
         op = ops[i][0]
         if op[0] == "rename" and (p == op[2] or inside(p, op[2])):
+            own.add(i)
             p = op[1] + p[len(op[2]):]
+            held.append((p, i))
         elif op[0] in ("mkdir", "makedirs", "mktree") and (p == op[1] or p == parent(op[1])):
             i0 = i
+            own.add(i)
             break
     if i0 is None:
         return False
-    for op, pace in ops[i0 + 1:]:
-        dests = {op[2]} if op[0] in ("rename", "move_back") else (
-            {op[1]} if op[0] in ("mknod", "mkdir", "move_in_file", "move_in_dir") else (
-                {op[1], parent(op[1])} if op[0] == "makedirs" else (set(MKTREE) if op[0] == "mktree" else set())))
-        if p in dests:
-            return True
+    for j in range(i0 + 1, len(ops)):
+        op, pace = ops[j]
+        if j not in own:
+            dests = {op[2]} if op[0] in ("rename", "move_back") else (
+                {op[1]} if op[0] in ("mknod", "mkdir", "move_in_file", "move_in_dir") else (
+                    {op[1], parent(op[1])} if op[0] == "makedirs" else (set(MKTREE) if op[0] == "mktree" else set())))
+            if any(name in dests and j > left for name, left in held):
+                return True
         if pace in ("drain", "drain-soft"):
             break
     return False
